@@ -37,11 +37,9 @@ def handle : Handler := fun op args =>
       if os.any (fun o => match o with | .error _ => true | .ok _ => false) then "err"
       else "ok " ++ " ".intercalate (os.map (fun o => match o with | .ok v => showRat v | .error _ => "?")) ++ " " ++ toString t.length
   | "c06.binom" => withArgs (do let n ← pInt; let k ← pInt; pure (n, k)) args fun (n, k) =>
-      if ¬ (k < 0 ∨ n < 0) ∧ ¬ (n < k) ∧ n > 170 then "ok big"
-      else
-        match binomial (fun _ _ => 0) tbl0 n k with
-        | (.ok v, t) => "ok " ++ showRat v ++ " " ++ toString t.length
-        | (.error _, _) => "err"
+      match binomial tbl0 n k with
+      | (.ok v, t) => "ok " ++ showRat v ++ " " ++ toString t.length
+      | (.error _, _) => "err"
   | "c06.gammaln" => withArgs pRat args fun x =>
       if x ≤ 0 then "err" else "ok " ++ showRat (lanczosSum x)
   | "c06.gamma" => withArgs pRat args fun x =>
@@ -70,6 +68,7 @@ def handle : Handler := fun op args =>
       | .ok .bottom => "ok bottom"
       | .ok .iterate => "ok iterate " ++ showRat (lanczosSum a)
   | "c06.invq" => withArgs (do let q ← pRat; let a ← pRat; pure (q, a)) args fun (q, a) =>
+      if q < 0 ∨ q > 1 then "err" else          -- the guard of `invGammaQ` (fix d65f15f)
       match invBranch (1 - q) a with
       | .error _ => "err"
       | .ok .top => "ok top"
